@@ -76,7 +76,7 @@ def run(ctx):
     n_mc = len(jobs)
 
     # 2. generation: every history of a bounded length over the reduced alphabet (down-after of one and of two rounds) ...
-    bfs = [("off", 8, 3), ("off", 4, 3), ("hard", 8, 3), ("gradual", 4, 3)] if not thorough else [("off", 8, 4), ("gradual", 4, 4), ("hard", 8, 3), ("off", 4, 3), ("gradual", 8, 3)]
+    bfs = [("off", 8, 3), ("hard", 8, 3), ("gradual", 4, 3)] if not thorough else [("off", 8, 4), ("gradual", 4, 4), ("hard", 8, 3), ("off", 4, 3), ("gradual", 8, 3)]
     for pol, da, ln in bfs:
         p = H.hc_params(pol, mode="bfs", len=ln, downafter=da, maxtime=10 ** 6)
         jobs.append(dict(module="HealthCheck_gen", cfg_text=H.HC_GEN % p, workers=1, emit=True,
